@@ -103,10 +103,10 @@ def run(res, f, tier):
     t = optable.compute(f)
     if not t:
         raise Inconclusive("evaluator not found")
-    ops = t["op_of_kind"].get("Index", [])
-    if len(ops) != 1:
-        raise Inconclusive("Index node kind has no single operator function")
-    cells = t["cells"][ops[0]]
+    if "Index" not in t["cells_by_kind"]:
+        raise Inconclusive("Index node kind has no operator table")
+    ops = t["op_of_kind"].get("Index", ["<inline>"])
+    cells = t["cells_by_kind"]["Index"]
     for combo, outs in sorted(cells.items()):
         rows = sorted((o["conds"], o["ret"]) for o in outs)
         if combo == ("Map", "Map"):
